@@ -230,6 +230,9 @@ func pairC08(r *rand.Rand, gp *GenParams, maxT int) (a, b *STree, rel string) {
 func caseC08(r *rand.Rand, cw *CalcWriter, label string, maxT int) {
 	gp := calcGen(maxT)
 	gp.PZeroLen = 0.05
+	if r.Intn(4) == 0 {
+		gp.PNegLen = 0.1
+	}
 	sa, sb, rel := pairC08(r, &gp, maxT)
 	tips := r.Intn(2) == 0
 	identical := r.Intn(4) == 0
@@ -445,6 +448,9 @@ var dyadicCutoffs = [][2]int{{1, 2}, {9, 16}, {5, 8}, {3, 4}, {7, 8}, {1, 1}}
 func caseC09(r *rand.Rand, cw *CalcWriter, label string, maxT int) {
 	gp := calcGen(maxT)
 	gp.PZeroLen = 0.05
+	if r.Intn(4) == 0 {
+		gp.PNegLen = 0.1
+	}
 	nt := pickTips(r, maxT)
 	names := tipNamesN("t", nt)
 	n := 1 + r.Intn(8)
